@@ -189,6 +189,45 @@ mod verif_bounded_mdk {
         if ends[0] != ends[1] { panic!("BOUNDED-COUNTEREXAMPLE {label}: scenario [the same two commits in the two delivery orders] the bystander ends in {:?} (loser first) and {:?} (winner first)", ends[0], ends[1]); }
     }
 
+    // C01 / C03 with a removal among the racers: two admins commit on the same epoch, the LOSING commit removes the two bystanders. A
+    // bystander that applies the loser first is evicted; when the winner (in which it is still a member) arrives it must come back:
+    // in both delivery orders, after re-delivery, both bystanders are active members on the winning branch. Scope: 2 delivery orders,
+    // both back ends, 3 re-deliveries. Its own test and label: see known_findings.txt if the unchanged tree fails it.
+    #[test]
+    fn race_lost_by_a_commit_that_removes_the_receiver_history() {
+        let label = "mdk_backends_bounded.race_lost_by_a_commit_that_removes_the_receiver_history";
+        for loser_first in [true, false] {
+            let mut w = setup();
+            w.alice_msg(label, "m1");
+            let bystanders: Vec<nostr::PublicKey> = w.a.get_members(&w.gid).unwrap().into_iter().filter(|p| *p != w.ak.public_key() && *p != w.bk.public_key()).collect();
+            let bob_commit = w.b.self_update(&w.gid).unwrap().evolution_event;
+            std::thread::sleep(std::time::Duration::from_millis(1100));
+            let alice_commit = w.a.remove_members(&w.gid, &bystanders).unwrap().evolution_event;
+            if loser_first {
+                w.deliver(label, "alice's (losing) commit, which removes both bystanders", &alice_commit);
+                w.deliver(label, "bob's (winning, earlier) commit for the same epoch, in which both are still members", &bob_commit);
+            } else {
+                w.deliver(label, "bob's (winning, earlier) commit", &bob_commit);
+                w.deliver(label, "alice's (losing) commit, which removes both bystanders", &alice_commit);
+            }
+            for (what, e) in [("re-delivery: bob's commit", &bob_commit), ("re-delivery: alice's commit", &alice_commit), ("re-delivery: bob's commit", &bob_commit)] { w.deliver(label, what, e); }
+            w.b.merge_pending_commit(&w.gid).unwrap();
+            let want_epoch = w.b.get_group(&w.gid).unwrap().unwrap().epoch;
+            for (who, f) in [("memory-backed", fp(&w.mem, &w.gid)), ("SQLite-backed", fp(&w.sql, &w.gid))] {
+                if f.epoch != Some(want_epoch) || f.state.as_deref() != Some("Active") || f.members.as_ref().map(|m| m.len()) != Some(4) {
+                    panic!("BOUNDED-COUNTEREXAMPLE {label}: scenario [history: {}] the {who} bystander does not end as an active member on the winning branch: expected epoch {want_epoch}, state Active, 4 members ; got epoch {:?}, state {:?}, members {:?}",
+                           w.log.join(" ; "), f.epoch, f.state, f.members.as_ref().map(|m| m.len()));
+                }
+            }
+            let after = w.b.create_message(&w.gid, create_test_rumor(&w.bk, "bob after the race")).unwrap();
+            w.deliver(label, "bob's message on the winning branch", &after);
+            let f = fp(&w.sql, &w.gid);
+            if !f.messages.iter().any(|m| m.0 == after.id.to_hex()) && !f.messages.iter().any(|m| m.1 == "Processed" && m.2 == Some(want_epoch)) {
+                panic!("BOUNDED-COUNTEREXAMPLE {label}: scenario [history: {}] the SQLite-backed bystander cannot read the winner's message of epoch {want_epoch}: {:?}", w.log.join(" ; "), f.messages);
+            }
+        }
+    }
+
     // C18 "the cached last-message pointer always designates the first message of the default order among messages that are not
     // invalidated", after a rollback that follows a LATE message: a message of epoch n reaches the bystanders after they applied the (losing)
     // commit that closed epoch n; it is stored and becomes the last message; the winning commit arrives, the rollback restores the group
